@@ -435,6 +435,17 @@ pub fn bin_all() -> Vec<Scenario> {
         mk("filter_three_drop", false,
            "r = @{ ! [#'bin { =0xaa => Ok }, #'bin { =x => [x, x] __binary_concat__ }] =a, !'bin =b, !'bin =c, [b, c] __binary_concat__ __binary_length__ },\n0xbb r,\n0xcc r,\n0xaa r,\n!r",
            "2"),
+        // a bodied filter holds a heap binary while a source written before it completes the
+        // select (type-only receive / awaited child / timeout); the binary is taken later and dropped
+        mk("filter_preempted_by_type", false,
+           "r = @{ ! [#'int, #'bin { =x => Ok }] =a, !'bin =b, [b, b] __binary_concat__ __binary_length__ },\n[0xb0, 0x0b] __binary_concat__ r,\n5 r,\n0xc0c0 r,\n!r",
+           "4"),
+        mk("filter_preempted_by_await", false,
+           "c = @{ 7 },\nr = @{ ! [c, #'bin { =x => Ok }] =a, !'bin =b, [b, b] __binary_concat__ __binary_length__ },\n[0xb0, 0x0b] __binary_concat__ r,\n0xc0c0 r,\n!r",
+           "4"),
+        mk("filter_preempted_by_timeout", false,
+           "r = @{ ! [5, #'bin { =x => Ok }] =a, !'bin =b, [b, b] __binary_concat__ __binary_length__ },\n[0xb0, 0x0b] __binary_concat__ r,\n0xc0c0 r,\n!r",
+           "4"),
         mk("closure", true,
            "x = [0x01, 0x02] __binary_concat__,\ng = #'bin { [x, ~] __binary_concat__ },\nc = @{ !#(#'bin -> 'bin) =h, 0x09 h },\n&g c,\nr = !c,\n[r, x]",
            "[0x010209, 0x0102]"),
